@@ -1,7 +1,6 @@
 package harness
 
 import (
-	"syscall"
 	"bytes"
 	"crypto/sha1"
 	"encoding/hex"
@@ -11,6 +10,7 @@ import (
 	"net/mail"
 	"strconv"
 	"strings"
+	"syscall"
 	"time"
 
 	"github.com/inbucket/inbucket/v3/pkg/config"
@@ -364,7 +364,9 @@ func (f fsFault) arm(s *simrt.Sim) (disarm func() int) {
 	fsys.FailAt, fsys.FailLen = fsys.Steps+1+f.Delta, f.Len
 	if f.NoSpc {
 		fsys.FailErr = syscall.ENOSPC
-		fsys.FailKinds = func(kind string) bool { return kind == "mkdir" || kind == "create" || kind == "truncate" || kind == "write" }
+		fsys.FailKinds = func(kind string) bool {
+			return kind == "mkdir" || kind == "create" || kind == "truncate" || kind == "write"
+		}
 	} else {
 		fsys.FailErr = syscall.EIO
 		fsys.FailKinds = nil
